@@ -101,8 +101,8 @@ def gates(hb, b):
 
 def gen_angles(rng, hb, b):
     n = int(rng.integers(1, 301))
-    kind = ['uniform', 'walk', 'seam', 'gates', 'square', 'grid'][
-        int(rng.integers(0, 6))]
+    kind = ['uniform', 'walk', 'seam', 'gates', 'square', 'grid', 'near'][
+        int(rng.integers(0, 7))]
     G = gates(hb, b)
     if kind == 'uniform':
         a = rng.uniform(0, 360, size=n)
@@ -116,6 +116,15 @@ def gen_angles(rng, hb, b):
         g = G[int(rng.integers(0, len(G)))]
         a = (g + rng.normal(0, 4.0, size=n) +
              (rng.random(n) < 0.1) * rng.uniform(-180, 180, size=n)) % 360.0
+    elif kind == 'near':
+        # float64 angles a few 1e-6 degrees to either side of a gate, of a
+        # hard boundary or of the 0/360 seam: off the exact gate values, but
+        # closer to them than single precision can resolve
+        pts = np.array(list(G) + [float(x) for x in hb])
+        p = pts[rng.integers(0, len(pts), size=n)]
+        d = rng.uniform(2e-6, 1e-5, size=n) * rng.choice([-1.0, 1.0], size=n)
+        a = np.where(rng.random(n) < 0.5, rng.uniform(0, 360, size=n),
+                     (p + d) % 360.0)
     elif kind == 'grid':
         # angles on a coarse grid: exact multiples of 5, 30 or 60 degrees,
         # which land exactly on the hard boundaries (0, 120, 160, 180, 240)
